@@ -248,8 +248,15 @@ fn dce_block_with_live(
                 };
                 // If the type-switch binding variable is not used in any case/default
                 // blocks, drop the binding (switch x := e.(type) -> switch e.(type)).
+                // A name that is live after the switch flows through every case, so the live-in
+                // sets cannot tell whether the cases themselves mention the binding.
                 let bind = bind.filter(|bname| {
-                    !(!cases_live_in.contains(bname) && !default_live_in.contains(bname))
+                    new_cases
+                        .iter()
+                        .any(|(_, blk)| free_vars_in_block(blk).contains(bname))
+                        || default_b
+                            .as_ref()
+                            .is_some_and(|blk| free_vars_in_block(blk).contains(bname))
                 });
                 add_uses_expr(&mut live, &expr);
                 live.extend(cases_live_in);
